@@ -160,6 +160,15 @@ pub fn generate(seed: u64, scale: usize) -> Cases {
         let s: String = (0..len).map(|_| *r.pick(hexd) as char).collect();
         cases.push("str_len", case_from_str(&s));
     }
+    // every single-byte character (0..=127) spliced into a valid id at several positions
+    for &pos in &[0usize, 1, 20, 39] {
+        let base: Vec<char> = (0..40).map(|_| *r.pick(hexd) as char).collect();
+        for c in 0u8..128 {
+            let mut s: Vec<char> = base.clone();
+            s[pos] = c as char;
+            cases.push("str_every_ascii", case_from_str(&s.iter().collect::<String>()));
+        }
+    }
     for pos in 0..40usize {
         let base: Vec<char> = (0..40).map(|_| *r.pick(hexd) as char).collect();
         for bad in bad_ascii.iter() {
